@@ -790,7 +790,7 @@ func (eng *Engine) searchRebind(key string, con *Contract, bound int, r *FuncRes
 		}
 		rb2[name] = c
 		eng.rebind = rb2
-		r2 := eng.verifyFunc0(key, con, bound)
+		r2 := eng.tryVerifyFunc0(key, con, bound)
 		if os.Getenv("GOVC_DEBUG_REBIND") != "" {
 			fmt.Fprintf(os.Stderr, "  try %v: oos=%q rebindable=%q\n", rb2, r2.OOS, r2.rebindable)
 		}
@@ -821,6 +821,16 @@ func (eng *Engine) searchRebind(key string, con *Contract, bound int, r *FuncRes
 		}
 	}
 	return nil, nil
+}
+
+// tryVerifyFunc0: a trial with a candidate binding; a binding of the wrong type may trip the evaluator in any way
+func (eng *Engine) tryVerifyFunc0(key string, con *Contract, bound int) (res *FuncResult) {
+	defer func() {
+		if e := recover(); e != nil {
+			res = &FuncResult{Key: key, Where: con.Where, OOS: fmt.Sprintf("candidate binding does not fit: %v", e)}
+		}
+	}()
+	return eng.verifyFunc0(key, con, bound)
 }
 
 // rebindCandidates: named locals of the function (debug names of SSA values) that the contract text does not mention
